@@ -15,9 +15,8 @@ pub fn run(tier: &str) -> Result<Report, String> {
     let m = if tier == "quick" { 5 } else { 6 };
     let mut slices = vec![];
     for b in &nets {
-        if tier == "quick" && b.n > 2 && b.name != "cyc3" {
-            continue;
-        }
+        // quick: node bound 5 on the networks with at most two variables and on cyc3, node bound 4 on the other three-variable ones
+        let m = if tier == "quick" && b.n > 2 && b.name != "cyc3" { 4 } else { m };
         sem::note_network(&mut rep, b);
         let ctx = NetCtx::new(b.clone(), Labels::default(), "none");
         let mut alpha = Alphabet::plain(ctx.nprops(), 2);
